@@ -42,6 +42,9 @@ func registerExtras() {
 	propertyRules["C08"] = append(propertyRules["C08"], rulePhaseProgress, ruleNoIdleCV, ruleForce)
 	propertyRules["C09"] = append(propertyRules["C09"], rulePhaseProgress)
 	propertyRules["C07"] = append(propertyRules["C07"], rulePhaseProgress)
+	// the example runs watch-only nodes and a blocked validator in one process: a panic of the library on a watch-only
+	// node (index -1) or a payload broadcast by it stops / disturbs the whole simulation — seed C17r3-3
+	propertyRules["C17"] = append(propertyRules["C17"], ruleIdx, ruleGSilent, rulePhaseProgress)
 }
 
 // L1-OBL: the state lemma "own (pre)commit / own preparation ⇒ proposal recorded" is an invariant: every non-nil store
